@@ -165,6 +165,38 @@ pub fn judge_faulty(plan: &ClientPlan, run: &ClientRun, out: &mut RunOut) {
         }
     }
 
+    // R2c unsolicited bytes behind the last frame of an exchange lie where only the acknowledgement of
+    // the next command may come: that next exchange fails (the connection is not used beyond the
+    // one command the client could not help writing), it is never carried through on these bytes
+    for f in pt.fired.iter().filter(|f| matches!(f.kind, FaultKind::StaleAfter(_)) && f.at_final_frame()) {
+        let k = f.conn;
+        let later: Vec<&Frame> = frames.iter().filter(|x| x.conn == k && x.seq > f.seq).collect();
+        let mut commands = 0;
+        for x in &later {
+            let is_ack = x.bytes[..] == rc::ACK;
+            if !is_ack {
+                commands += 1;
+            }
+            if commands > 1 || (is_ack && commands == 1) {
+                out.stats.hit("probe.stale_packet_judged");
+                out.fail(
+                    "stale_packet_absorbed",
+                    format!("r2c/{:?}", f.kind),
+                    format!(
+                        "connection {k}: the terminal left unsolicited bytes behind the last frame of {:02x} {:02x} (event #{}); the next command cannot have been acknowledged, yet the client went on with {} on that connection",
+                        f.during.0,
+                        f.during.1,
+                        f.seq,
+                        crate::conn::hex(&x.bytes)
+                    ),
+                );
+                break;
+            }
+        }
+        if commands > 0 {
+            out.stats.hit("probe.command_after_stale_packet");
+        }
+    }
     // R2 abandon
     for f in &pt.fired {
         if matches!(f.kind, FaultKind::WrongSerial | FaultKind::IdentityAbort(_) | FaultKind::StaleAfter(_) | FaultKind::CloseIdle) {
